@@ -203,23 +203,21 @@ def run(ctx):
                     ctx.broken.append(f"correspondence C09 ({surface}): model evaluation failed")
                     ctx.log(err[-3000:])
                 if fails:
-                    ctx.broken.append(f"correspondence C09 ({surface}, {prof}): model and implementation differ on {len(fails)} histories")
-                    bad = [cases[i] for i in fails[:3]]
-                    bad_texts = [run_harness.texts[i] if i < len(run_harness.texts) else "" for i in fails[:3]]
+                    # evaluate the model on every diverging history (capped), find the first divergent step of each and
+                    # classify it; the tie counts as broken only if a divergence is not attributed to an open known finding
+                    cap = 120
+                    bad = [cases[i] for i in fails[:cap]]
+                    bad_texts = [run_harness.texts[i] if i < len(run_harness.texts) else "" for i in fails[:cap]]
                     mo, _ = vlib.coq_eval_terms("c09", IMPORTS + "\nLocal Open Scope N_scope.", [f"{fn} ({q})" for q, _ in bad])
-                    dis = []
+                    dis, unknown, shown = [], len(fails) - len(bad), set()
                     for (q, o), m, txt in zip(bad, mo, bad_texts):
                         d = first_divergence(o, m, 2 if surface == "bytes" else 3)
                         # the history up to and including the first divergent step, in --replay-ops form
                         upto = "; ".join(txt.split("; ")[: (d["step"] + 1) if d else None])
-                        dis.append({"query": q[:1500], "implementation": o[:800], "model": (m or "")[:800],
-                                    "first_divergent_step": d, "history": upto})
-                    ctx.cov["disagreements"] = ctx.cov.get("disagreements", []) + dis
-                    # a divergence from the model is a concrete input on which the implementation leaves the
-                    # proved behaviour; report it with the history so that it can be replayed
-                    for d in dis[:2]:
+                        rec = {"query": q[:1500], "implementation": o[:800], "model": (m or "")[:800],
+                               "first_divergent_step": d, "history": upto}
                         sig = f"mheap-tie:{surface}:diverges-from-model"
-                        fd = d.get("first_divergent_step") or {}
+                        fd = d or {}
                         try:
                             mv = int(fd.get("model", [0, 0])[1])
                         except Exception:
@@ -227,10 +225,24 @@ def run(ctx):
                         if surface != "bytes" and (1 << 60) <= mv < (1 << 60) + 100000000:
                             # the model expects the placeholder of a stored heap string, the implementation hands back something else
                             sig = f"mheap-tie:{surface}:stored-heap-object-lost"
-                        elif surface == "bytes" and re.search(r"(fsys|netw)\.close\(", d.get("history", "")):
+                        elif surface == "bytes" and re.search(r"(fsys|netw)\.close\(", upto):
                             sig = "mheap-tie:bytes:diverges-after-foreign-close"
-                        ctx.violation(sig, "implementation and proved model disagree",
-                                      {"surface": surface, "profile": prof, **d})
+                        known = any(k.get("status") == "open" and re.search(k["match"], sig) for k in ctx.known)
+                        if not known:
+                            unknown += 1
+                        if len(dis) < 3:
+                            dis.append(rec)
+                        # a divergence from the model is a concrete input on which the implementation leaves the
+                        # proved behaviour; report it (once per signature, twice when unattributed) with its history
+                        if (sig not in shown) or (not known and len([1 for x in shown if x == sig]) < 2):
+                            shown.add(sig)
+                            ctx.violation(sig, "implementation and proved model disagree", {"surface": surface, "profile": prof, **rec})
+                    ctx.cov["disagreements"] = (ctx.cov.get("disagreements", []) + dis)[:12]
+                    if unknown:
+                        ctx.broken.append(f"correspondence C09 ({surface}, {prof}): model and implementation differ on {len(fails)} histories "
+                                          f"({unknown} not attributed to an open known finding)")
+                    else:
+                        ctx.cov["known_class_hits"] += len(fails)
                 if tag is None:
                     ctx.add_samples([{"surface": surface, "query": q[:400], "observed": o[:300]} for q, o in cases[:1]], limit=8)
     ctx.cov["evaluations"] = total
